@@ -38,8 +38,8 @@ def _name(n, quoted):
 
 
 def _known_name_issue(n):
-    """quoted names containing a backslash are altered by the tokenizer (open finding)"""
-    return region_active('c01_backslash_in_quoted_name') and docs.has_char(n, '\\')
+    """(was: quoted names containing a backslash were altered by the tokenizer; repaired in /repo, nothing is excluded any more)"""
+    return False
 
 
 def _expect_db(project=None, enums=(), tables=(), refs=(), groups=(), stickies=()):
